@@ -1189,6 +1189,7 @@ func (c *Compiler) changeOperand(opPos int, operand ...int) {
 // instructions. It also removes unreachable (dead code) instructions and adds
 // "returns" instruction if needed.
 func (c *Compiler) optimizeFunc(node parser.Node) {
+	verifOptInput(c, node)
 	// any instructions between RETURN and the function end
 	// or instructions between RETURN and jump target position
 	// are considered as unreachable.
